@@ -556,3 +556,8 @@ def _L_sorted_perm(ex, st, l):
 @SPEC.fn("allocated")
 def _allocated(ex, st, r):
     return VBool(z3.And(r.e > 0, r.e <= st.alloc))
+
+
+@SPEC.fn("hash_formats_none")
+def _empty_int_list(ex, st):
+    return VList(TInt(), z3.Empty(z3.SeqSort(I)))
